@@ -26,7 +26,7 @@ exit 1).  A `required_version` mismatch, a missing path, a syntax error do *not*
 -/
 namespace RF.Props.C05
 open RF.Session RF.Project RF.Gen.Phases RF.Gen.Emitters RF.Lemmas.Project RF.Lemmas.Session
-open RF.ParseErrors RF.Gen.ParseErrs RF.Lemmas.ParseErrors
+open RF.ParseErrors RF.Gen.ParseErrs RF.Gen.ModArms RF.Lemmas.ParseErrors
 
 /-- The formatter proper, as the generated lists describe it. -/
 abbrev genF (ops : FileOps) (kind : EmitterKind) : Config Cfg → Tree → List Effect × Option Flags :=
@@ -635,37 +635,69 @@ theorem ignored_errors_are_reset (s : Sess) (fp : FileParse) (hs : s.hasNonIgn =
     obtain ⟨d, hm, hh⟩ := List.any_eq_true.1 ha
     simp [(hd d hm).1] at hh
 
+/-- A call on a path that exists ends in `Ok` or in `ParseError` — never in `ParsePanicError`, which is what the
+arms of `find_external_module` treat as "the file is not there" (an unwinding parser on an existing file is a
+lexer error: `Err(..) if path.exists() => Err(ParseError)`). -/
+theorem existing_file_is_parse_error : ExistingIsParseError genParse := by
+  intro s fp he
+  rw [parse_file_decisions]
+  cases fp.raw with
+  | ok => simp only []; (repeat' split) <;> simp
+  | err e => simp
+  | unwound => simp [he]
+
+/-- **The generated arms of `find_external_module` / `find_mods_outside_of_ast` never go on past a file that
+does not parse** (finite check): a `ParseError` on a nested-path candidate or on the default file is an error of
+module resolution, with or without other candidates; an accepted file is left out exactly when it has
+`#![rustfmt::skip]`. -/
+theorem mod_prog_ok : modProgOk genMods = true := by decide
+
+theorem tables_safe : Safe genParse genMods :=
+  ⟨non_ignored_error_never_reset, existing_file_is_parse_error, mod_prog_ok⟩
+
+/-- The arms for a plain `mod m;` (no candidate: `outside_mods_empty`) and for `#[path = ".."] mod m;` agree with
+what `RF.Project.visitTree` hard-wires for `Mods.found`: `Ok` with `#![rustfmt::skip]` → left out, `Ok` → taken,
+every `Err` → module resolution fails. -/
+theorem plain_mod_arms_agree (ret : Option Ret) (sk : Bool) :
+    selectM pathArms ret sk true = (if ret = some .ok then (if sk then .skip else .use) else .fail) ∧
+    selectM dfltArms ret sk true = (if ret = some .ok then (if sk then .skip else .use) else .fail) := by
+  cases ret with
+  | none => cases sk <;> decide
+  | some r => cases r <;> cases sk <;> decide
+
 /-! ### lifted into the project model -/
 
 /-- **A failing root writes nothing** — files given by their diagnostics.  `pi` says, for every path, what
-the rustc parser does on that file (any sequence of diagnostics of any level located anywhere, then `Ok`,
-`Err` or an unwinding); each file carries whether it is on the `ignore` list; the session state is threaded
-through the files in the order `format_project` parses them, so that what an earlier (ignored or healthy)
-file did to `can_reset` and to the error count is what a later file meets.  If the root file or any file that
-module resolution reaches has a fault — the parser does not return `Ok`, or it reports an error that is fatal
-or has its primary span outside the ignored files; in particular a *recoverable* syntax error in a file that is
-not ignored — or a `mod` has no file or two, then no file-system call is made for that root in any emit mode,
-and the failure is recorded. -/
+the rustc parser does on that file (any sequence of diagnostics of any level located anywhere, emitted or
+stashed, then `Ok`, `Err` or an unwinding); each file carries whether it is on the `ignore` list; the session
+state is threaded through the files in the order `format_project` parses them, so that what an earlier (ignored
+or healthy) file did to `can_reset` and to the error count is what a later file meets; what
+`find_external_module` does with each parse result is read off the generated arms.  If the root file or any file
+that module resolution reaches — the default file of a `mod`, a `#[path]` target, a candidate of a nested
+`#[cfg_attr(.., path = "..")]`, anything below one that is taken — has a fault (the parser does not return
+`Ok`, or it reports an error that is fatal or has its primary span outside the ignored files; in particular a
+*recoverable* or a *stashed* syntax error in a file that is not ignored), or a `mod` has no file or two, then
+no file-system call is made for that root in any emit mode, and the failure is recorded. -/
 theorem fault_implies_no_write (pi : Nat → FileParse) (ops : FileOps) (kind : EmitterKind) (cfg : Cfg) (root : Tree)
     (hf : faultyE pi cfg root = true) :
-    (runProjectE genParse pi formatProject formatFile ops kind cfg root).log = [] ∧
+    (runProjectE genParse genMods pi formatProject formatFile ops kind cfg root).log = [] ∧
     ((cfg.skipChildren && root.file.ignored) = false →
-      (runProjectE genParse pi formatProject formatFile ops kind cfg root).flagged = true) := by
-  have h := fault_implies_no_write_status ops kind cfg (annotateRoot genParse pi cfg root)
-    (annotateRoot_faulty genParse non_ignored_error_never_reset pi cfg root hf)
-  rw [(annotateRoot_file genParse pi cfg root).1] at h
+      (runProjectE genParse genMods pi formatProject formatFile ops kind cfg root).flagged = true) := by
+  have h := fault_implies_no_write_status ops kind cfg (annotateRoot genParse genMods pi cfg root)
+    (annotateRoot_faulty genParse genMods tables_safe pi cfg root hf)
+  rw [(annotateRoot_file genParse genMods pi cfg root).1] at h
   exact h
 
 /-- … and the process exits with 1 on any command line that contains that root. -/
 theorem fault_implies_exit_one_diags (pi : Nat → FileParse) (ops : FileOps) (kind : EmitterKind) (g : Config Cfg)
     (usePath check : Bool) (args : List (Arg Cfg Tree)) (lc : Option (Config Cfg)) (root : Tree) (c : Config Cfg)
-    (ha : Arg.file lc (annotateRoot genParse pi c.opts root) ∈ args) (hc : (if usePath then some g else lc) = some c)
+    (ha : Arg.file lc (annotateRoot genParse genMods pi c.opts root) ∈ args) (hc : (if usePath then some g else lc) = some c)
     (hd : c.disableAll = false) (hi : (c.opts.skipChildren && root.file.ignored) = false)
     (hf : faultyE pi c.opts root = true) :
     (runCli (genF ops kind) g usePath args).exit check = 1 :=
   fault_implies_exit_one ops kind g usePath check args lc _ c ha hc hd
-    (by rw [(annotateRoot_file genParse pi c.opts root).1]; exact hi)
-    (annotateRoot_faulty genParse non_ignored_error_never_reset pi c.opts root hf)
+    (by rw [(annotateRoot_file genParse genMods pi c.opts root).1]; exact hi)
+    (annotateRoot_faulty genParse genMods tables_safe pi c.opts root hf)
 
 /-! ### sensitivity and non-vacuity -/
 
@@ -698,9 +730,9 @@ the root and the faulty module.  With the generated blocks the same crate fails 
 theorem can_reset_clear_matters :
     emitProgOk emitWithoutClear = false ∧
     faultyE (ignPi (recoverable false)) {} ignTree = true ∧
-    runProjectE { genParse with emit := emitWithoutClear } (ignPi (recoverable false)) formatProject formatFile idOps .files {} ignTree =
+    runProjectE { genParse with emit := emitWithoutClear } genMods (ignPi (recoverable false)) formatProject formatFile idOps .files {} ignTree =
       ⟨.ok {}, [⟨0, .write .file, ['R', '\n']⟩, ⟨2, .write .file, ['B', '\n']⟩]⟩ ∧
-    runProjectE genParse (ignPi (recoverable false)) formatProject formatFile idOps .files {} ignTree = ⟨.err, []⟩ := by
+    runProjectE genParse genMods (ignPi (recoverable false)) formatProject formatFile idOps .files {} ignTree = ⟨.err, []⟩ := by
   decide
 
 /-- **Sensitivity: emitting the stash matters** (the defect D4 of the pinned tree, repaired in `has_errors`).
@@ -710,16 +742,72 @@ is accepted and the root and the faulty file are rewritten.  With the generated 
 theorem stash_flush_matters :
     let stashedErr : FileParse := { diags := [{ level := .error, loc := .localFile false, stashed := true }] }
     faultyE (ignPi stashedErr) {} ignTree = true ∧
-    runProjectE { genParse with flush := false } (ignPi stashedErr) formatProject formatFile idOps .files {} ignTree =
+    runProjectE { genParse with flush := false } genMods (ignPi stashedErr) formatProject formatFile idOps .files {} ignTree =
       ⟨.ok {}, [⟨0, .write .file, ['R', '\n']⟩, ⟨2, .write .file, ['B', '\n']⟩]⟩ ∧
-    runProjectE genParse (ignPi stashedErr) formatProject formatFile idOps .files {} ignTree = ⟨.err, []⟩ := by
+    runProjectE genParse genMods (ignPi stashedErr) formatProject formatFile idOps .files {} ignTree = ⟨.err, []⟩ := by
   decide
+
+/-- root `0` declares `#[cfg_attr(pred, path = "alt.rs")] mod m;` as its LAST module: candidate `alt.rs` (file 1,
+healthy), default file `m.rs` (file 2); `3` is what the file map holds for the path of `m.rs` when it is
+registered with the declaring item's module: the bytes of `m.rs`, the text of the *root* -/
+def cfgTree : Tree :=
+  .node { path := 0, parse := .ok, orig := ['r'], visited := ['R'] }
+    (.cfgAttr (.cons .use (.node { path := 1, parse := .ok, orig := ['a'], visited := ['A'] } .nil) .nil) .found .file
+      (.node { path := 2, parse := .ok, orig := ['m'], visited := ['M'] } .nil)
+      { path := 2, parse := .ok, orig := ['m'], visited := ['R'] } .nil)
+
+/-- a lexer-fatal error: one `Fatal` diagnostic in the file, the call unwinds -/
+def lexFatal : FileParse := { diags := [{ level := .fatal, loc := .localFile false }], raw := .unwound }
+
+/-- **Sensitivity: how an unwinding parser is classified matters.**  If `parse_file_as_module` reports every
+caught unwind as `ParsePanicError` (instead of `ParseError` when the path exists), the arm of
+`find_external_module` meant for "the default file is not there, but a candidate is" takes a default file with a
+lexer error: resolution goes on, the root and the candidate are rewritten, and the broken file is overwritten
+with the text of its parent.  With the generated arms the crate fails with nothing written. -/
+theorem unwind_classification_matters :
+    let pi : Nat → FileParse := fun | 2 => lexFatal | _ => clean
+    let arms' : List Arm := [⟨.okSome, .noErrors, [], .ok⟩, ⟨.okSome, .canReset, [.resetErrors], .ok⟩,
+      ⟨.okAny, .always, [], .parseError⟩, ⟨.unwound, .always, [], .parsePanicError⟩]
+    faultyE pi {} cfgTree = true ∧
+    runProjectE { genParse with fileArms := arms' } genMods pi formatProject formatFile idOps .files {} cfgTree =
+      ⟨.ok {}, [⟨0, .write .file, ['R', '\n']⟩, ⟨1, .write .file, ['A', '\n']⟩, ⟨2, .write .file, ['R', '\n']⟩]⟩ ∧
+    runProjectE genParse genMods pi formatProject formatFile idOps .files {} cfgTree = ⟨.err, []⟩ := by
+  decide
+
+/-- **Sensitivity: a candidate that does not parse must fail the run** (the defect D5 of the pinned tree,
+repaired in `find_mods_outside_of_ast`).  With the old arm `Err(..) => continue` a crate whose last module is
+`#[cfg_attr(a, path = "good.rs")] #[cfg_attr(b, path = "bad.rs")] mod m;` (no `m.rs`), `bad.rs` with a syntax
+error, is formatted and written. -/
+theorem candidate_failure_matters :
+    let pi : Nat → FileParse := fun | 2 => recoverable false | _ => clean
+    let t : Tree := .node { path := 0, parse := .ok, orig := ['r'], visited := ['R'] }
+      (.cfgAttr (.cons .use (.node { path := 1, parse := .ok, orig := ['a'], visited := ['A'] } .nil)
+          (.cons .use (.node { path := 2, parse := .ok, orig := ['b'], visited := ['B'] } .nil) .nil)) .notFound .candidates
+        (.node { path := 9, parse := .ok, orig := [], visited := [] } .nil) { path := 9, parse := .ok, orig := [], visited := [] } .nil)
+    let old : ModProg := { genMods with alt := [⟨.okSkip, .always, .skip⟩, ⟨.ok, .always, .use⟩, ⟨.errAny, .always, .skip⟩] }
+    modProgOk old = false ∧ faultyE pi {} t = true ∧
+    runProjectE genParse old pi formatProject formatFile idOps .files {} t =
+      ⟨.ok {}, [⟨0, .write .file, ['R', '\n']⟩, ⟨1, .write .file, ['A', '\n']⟩]⟩ ∧
+    runProjectE genParse genMods pi formatProject formatFile idOps .files {} t = ⟨.err, []⟩ := by
+  decide
+
+/-- the cfg_attr crate with healthy files: the candidate and the default file are both formatted; with a default
+file that carries `#![rustfmt::skip]` nothing below the declaration is (the candidates are dropped as well) -/
+example :
+    runProjectE genParse genMods (fun _ => clean) formatProject formatFile idOps .files {} cfgTree =
+      ⟨.ok {}, [⟨0, .write .file, ['R', '\n']⟩, ⟨1, .write .file, ['A', '\n']⟩, ⟨2, .write .file, ['M', '\n']⟩]⟩ ∧
+    runProjectE genParse genMods (fun _ => clean) formatProject formatFile idOps .files {}
+      (.node { path := 0, parse := .ok, orig := ['r'], visited := ['R'] }
+        (.cfgAttr (.cons .use (.node { path := 1, parse := .ok, orig := ['a'], visited := ['A'] } .nil) .nil) .found .file
+          (.node { path := 2, parse := .ok, orig := ['m'], visited := ['M'], skipAttr := true } .nil)
+          { path := 2, parse := .ok, orig := ['m'], visited := ['R'] } .nil)) =
+      ⟨.ok {}, [⟨0, .write .file, ['R', '\n']⟩]⟩ := by decide
 
 /-- the hypothesis of `fault_implies_no_write` is not always true, and the conclusion is not always true either:
 with the second module healthy the ignored module's error is reset and the run writes the two files that are
 not ignored (never the ignored one) -/
 example : faultyE (ignPi clean) {} ignTree = false ∧
-    runProjectE genParse (ignPi clean) formatProject formatFile idOps .files {} ignTree =
+    runProjectE genParse genMods (ignPi clean) formatProject formatFile idOps .files {} ignTree =
       ⟨.ok {}, [⟨0, .write .file, ['R', '\n']⟩, ⟨2, .write .file, ['B', '\n']⟩]⟩ := by decide
 
 /-- order does not help the faulty module: visited *before* the ignored one it fails as well; an ignored module
@@ -730,12 +818,12 @@ example :
     let t : Tree := .node { path := 0, parse := .ok, orig := ['r'], visited := ['R'] }
       (.found (.node { path := 1, parse := .ok, orig := ['a'], visited := ['A'] } .nil)
         (.found (.node { path := 2, parse := .ok, orig := ['b'], visited := ['B'], ignored := true } .nil) .nil))
-    runProjectE genParse swapped formatProject formatFile idOps .files {} t = ⟨.err, []⟩ ∧
-    runProjectE genParse (ignPi clean) formatProject formatFile idOps .files {}
+    runProjectE genParse genMods swapped formatProject formatFile idOps .files {} t = ⟨.err, []⟩ ∧
+    runProjectE genParse genMods (ignPi clean) formatProject formatFile idOps .files {}
       (.node { path := 0, parse := .ok, orig := ['r'], visited := ['R'] }
         (.found (.node { path := 1, parse := .ok, orig := ['a'], visited := ['A'], ignored := true } .nil) .nil)) =
       ⟨.ok {}, [⟨0, .write .file, ['R', '\n']⟩]⟩ ∧
-    runProjectE genParse (fun | 1 => { diags := [], raw := .err (ownErr true) } | _ => clean) formatProject formatFile idOps .files {}
+    runProjectE genParse genMods (fun | 1 => { diags := [], raw := .err (ownErr true) } | _ => clean) formatProject formatFile idOps .files {}
       ignTree = ⟨.err, []⟩ := by decide
 
 /-- the hypotheses of `can_reset_implies_only_ignored`, `can_reset_invariant`, `hard_error_poisons`,
